@@ -1,7 +1,8 @@
 (* Correspondence checker for C20.  A case is one of
      CParse : one line through the real ParseLine           -> the projected item
      CText  : the bytes of a play file through the real LoadFile / ParseByLine and Check
-                                        -> items, number of errors, err != nil, load error
+                                        -> items, number of errors, err != nil, load error,
+                                           the error texts Check returned
      CFilter: commands and lines through the real FilterLines goroutine -> the lines it let through
    together with the oracle tables the harness recorded from time.ParseDuration, regexp.Compile,
    strconv.Atoi and Regexp.MatchString for exactly the operands of that case.  A case passes when
@@ -24,6 +25,8 @@ Definition re_tab (t : tab bool) (s : string) : bool :=
   match assoc t s with Some b => b | None => false end.
 Definition int_tab (t : tab (option Z)) (s : string) : option Z :=
   match assoc t s with Some r => r | None => None end.
+Definition str_tab (t : tab string) (s : string) : string :=
+  match assoc t s with Some r => r | None => "" end.
 (* per pattern: the lines of the case it matches *)
 Definition match_tab (t : tab (list string)) (p line : string) : bool :=
   match assoc t p with Some ls => existsb (String.eqb line) ls | None => false end.
@@ -59,6 +62,8 @@ Inductive case :=
 | CParse (durs : tab (option Z)) (res : tab bool) (ints : tab (option Z)) (l : string) (obs : item)
 | CText (durs : tab (option Z)) (res : tab bool) (ints : tab (option Z)) (text : list chunk)
         (obs : list item) (nerr : N) (failed : bool) (too_long : bool)
+        (* the texts Check returned, and the library's error texts they embed *)
+        (reerr durerr : tab string) (texts : list string)
 | CFilter (mt : tab (list string)) (evs : list fev) (obs : list string)
 (* FilterLines in front of a log channel of capacity cap whose consumer read pause lines, then did
    not read for a while, then read on: obs is what had arrived when the history was complete *)
@@ -100,11 +105,15 @@ Definition case_ok (c : case) : bool :=
   match c with
   | CParse durs res ints l obs =>
       item_eqb (parse_line (dur_tab durs) (re_tab res) (int_tab ints) l) obs
-  | CText durs res ints text obs nerr failed too_long =>
+  | CText durs res ints text obs nerr failed too_long reerr durerr texts =>
       (* too_long = "LoadFile returned an error": never, since F14d removed the scanner's limit *)
       let its := load_text (dur_tab durs) (re_tab res) (int_tab ints) (text_of text) in
       list_eqb item_eqb its obs && (check_count its =? nerr)%N && Bool.eqb (check_fails its) failed
       && negb too_long
+      && list_eqb String.eqb
+           (check_texts (dur_tab durs) (re_tab res) (int_tab ints) (str_tab reerr) (str_tab durerr)
+              (file_lines (text_of text)))
+           texts
   | CFilter mt evs obs =>
       list_eqb String.eqb (frun (match_tab mt) fnew evs) obs
   | CStalled mt cap pause evs obs =>
@@ -134,7 +143,7 @@ Definition case_nontrivial (c : case) : bool :=
   match c with
   | CParse durs res ints l _ =>
       negb (item_eqb (parse_line (dur_tab durs) (re_tab res) (int_tab ints) l) (ISend l 0 "" 0 0))
-  | CText durs res ints text _ _ _ _ =>
+  | CText durs res ints text _ _ _ _ _ _ _ =>
       let its := load_text (dur_tab durs) (re_tab res) (int_tab ints) (text_of text) in
       existsb is_error its && existsb (fun i => negb (is_error i)) its
   | CFilter mt evs _ | CCancelled mt evs _ =>
